@@ -270,15 +270,32 @@ pub fn oracle_tree<const N: usize>(c: &TreeCase) -> Viol {
         let mut out: Viol = vec![];
         let mut t = new_tree::<N>(c.base);
         let mut t_dep = if c.base == 16 { Some(new_tree_deprecated::<N>()) } else { None };
+        let mut t_alt = new_tree_base_first::<N>(c.base);
+        // a replica bootstrapped by cloning the tree half-way through the history must stay interchangeable
+        let mut t_clone: Option<Tree<N>> = None;
+        // C03: every root hash seen during the history, with the content it stood for
+        let mut seen_hash: std::collections::HashMap<[u8; 16], BTreeMap<usize, Vec<u8>>> = Default::default();
         let mut content = BTreeMap::<usize, Vec<u8>>::new();
         for (i, op) in c.ops.iter().enumerate() {
             let at = |m: &str| format!("after op {} ({:?}): {}", i, op, m);
+            if i == c.ops.len() / 2 {
+                t_clone = Some(t.clone());
+            }
+            if let Some(cl) = t_clone.as_mut() {
+                match op {
+                    Op::Hash => {
+                        let _ = cl.root_hash();
+                    }
+                    Op::Upsert(k, v) => cl.upsert(c.keys[*k].clone(), &Val(v.clone())),
+                }
+            }
             match op {
                 Op::Hash => {
                     let h = t.root_hash().clone();
                     if let Some(d) = t_dep.as_mut() {
                         let _ = d.root_hash();
                     }
+                    let _ = t_alt.root_hash();
                     if t.root_hash_cached() != Some(&h) {
                         out.push(("C02", at("root_hash_cached() != Some(value just returned)")));
                     }
@@ -292,6 +309,7 @@ pub fn oracle_tree<const N: usize>(c: &TreeCase) -> Viol {
                     if let Some(d) = t_dep.as_mut() {
                         d.upsert(c.keys[*k].clone(), &Val(v.clone()));
                     }
+                    t_alt.upsert(c.keys[*k].clone(), &Val(v.clone()));
                     content.insert(*k, v.clone());
                     if t.root_hash_cached().is_some() {
                         out.push(("C02", at("cached root hash still exposed after an upsert")));
@@ -374,6 +392,17 @@ pub fn oracle_tree<const N: usize>(c: &TreeCase) -> Viol {
             let mut tc = t.clone();
             let h1 = tc.root_hash().clone();
             let h2 = f.root_hash().clone();
+            match seen_hash.get(h1.as_bytes()) {
+                Some(prev) if *prev != content => {
+                    out.push(("C03", at("this root hash was already reported for a different content earlier in the history")));
+                }
+                Some(_) => {}
+                None => {
+                    if seen_hash.len() < 4096 {
+                        seen_hash.insert(*h1.as_bytes(), content.clone());
+                    }
+                }
+            }
             if h1 != h2 {
                 out.push(("C01", at("root hash differs from a freshly built tree with the same content")));
                 out.push(("C02", at("root hash differs from a freshly built tree with the same content")));
@@ -406,6 +435,28 @@ pub fn oracle_tree<const N: usize>(c: &TreeCase) -> Viol {
                     }
                 } else if tc.serialise_page_ranges().map(|v| v.len()) != Some(0) {
                     out.push(("C11", at("empty tree does not serialise to an empty list")));
+                }
+            }
+            // a clone taken mid-history and fed the same operations must be indistinguishable
+            if let Some(cl) = t_clone.as_ref() {
+                let mut s1 = String::new();
+                let mut s2 = String::new();
+                dump_tree(&t, &mut s1);
+                dump_tree(cl, &mut s2);
+                if s1 != s2 {
+                    for p in ["C01", "C05", "C06", "C18"] {
+                        out.push((p, at("a clone of the tree taken mid-history, given the same later operations, differs from the original (replicas bootstrapped by clone diverge)")));
+                    }
+                }
+            }
+            // C18: the two builder call orders must be interchangeable
+            {
+                let mut s1 = String::new();
+                let mut s2 = String::new();
+                dump_tree(&t, &mut s1);
+                dump_tree(&t_alt, &mut s2);
+                if s1 != s2 {
+                    out.push(("C18", at("builder with_level_base().with_hasher() tree differs from with_hasher().with_level_base() tree")));
                 }
             }
             // C18: the deprecated constructor must be interchangeable (base 16 only)
@@ -545,9 +596,14 @@ pub fn oracle_pair<const N: usize>(c: &PairCase) -> Viol {
                 }
             }
         }
-        // C16
-        if let Err(m) = routes_agree(&a, &b) {
-            out.push(("C16", m));
+        // C16: a panic on one of the alternative representations is a C16 failure (the borrowed route above ran)
+        match catch_unwind(AssertUnwindSafe(|| routes_agree(&a, &b))) {
+            Ok(Ok(())) => {}
+            Ok(Err(m)) => out.push(("C16", m)),
+            Err(_) => {
+                out.push(("C16", "diff panicked on an owned / rebuilt representation of page ranges that diff fine when borrowed".into()));
+                out.push(("C15", "diff panicked on an owned / rebuilt representation of real trees' page ranges".into()));
+            }
         }
         out
     }));
